@@ -127,9 +127,6 @@ class _GenerateRenderMethod:
                 if not pagetag.body_decl.kwargs:
                     args += ["**pageargs"]
                 cached = eval(pagetag.attributes.get("cached", "False"))
-                self.compiler.enable_loop = self.compiler.enable_loop or eval(
-                    pagetag.attributes.get("enable_loop", "False")
-                )
             else:
                 args = ["**pageargs"]
                 cached = False
@@ -201,6 +198,16 @@ class _GenerateRenderMethod:
             n.accept_visitor(f)
 
         self.compiler.namespaces = namespaces
+
+        pagetag = self.compiler.pagetag
+        if pagetag is not None and eval(
+            pagetag.attributes.get("enable_loop", "False")
+        ):
+            # the page turns the loop context on: "loop" is reserved then
+            self.compiler.enable_loop = True
+            self.compiler.reserved_names = self.compiler.reserved_names.union(
+                ["loop"]
+            )
 
         module_ident = set()
         for n in module_code:
